@@ -13,7 +13,7 @@ from vlib.reffix import ref_parse
 from vlib.runner import derive_seed
 from vlib.simnet import Recorder, World
 
-STEPS = ["app-out", "app-in", "testreq-out", "testreq-in", "hb-out", "hb-in", "app-out", "app-in", "app-in-g"]
+STEPS = ["app-out", "app-in", "testreq-out", "testreq-in", "hb-out", "hb-in", "app-out", "app-in", "app-in-g", "app-out-big", "app-in-big"]
 ENDS = [None, "logout-out", "logout-in"]
 DROP = {"9", "10", "52"}
 
@@ -34,6 +34,12 @@ assert "382" not in FIXProtocol44.repeating_groups
 def app_msg_group(uid):
     m = app_msg(uid, "g")
     m.set_group(382, [{375: "BRK1", 337: "T1", 437: "5"}, {375: "BRK2", 437: "7"}])
+    return m
+
+
+def app_msg_big(uid, direction):
+    m = app_msg(uid, direction)
+    m.set(58, "z" * 75000)  # a frame larger than 64 KiB
     return m
 
 
@@ -132,6 +138,10 @@ def run_helper(script, n_out, n_in, hb):
                 call(conn.send_msg(ft.msg_logon({FTag.HeartBtInt: hb})))
             elif stp == "app-out":
                 call(conn.send_msg(app_msg(uid, "o")))
+            elif stp == "app-out-big":
+                call(conn.send_msg(app_msg_big(uid, "o")))
+            elif stp == "app-in-big":
+                call(ft.reply(app_msg_big(uid, "i")))
             elif stp == "app-in":
                 call(ft.reply(app_msg(uid, "i")))
             elif stp == "app-in-g":
@@ -207,6 +217,10 @@ def run_real(script, n_out, n_in, hb):
                 call(c.send_msg(ft.msg_logon({FTag.HeartBtInt: hb})))
             elif stp == "app-out":
                 call(c.send_msg(app_msg(uid, "o")))
+            elif stp == "app-out-big":
+                call(c.send_msg(app_msg_big(uid, "o")))
+            elif stp == "app-in-big":
+                call(s.send_msg(app_msg_big(uid, "i")))
             elif stp == "app-in":
                 call(s.send_msg(app_msg(uid, "i")))
             elif stp == "app-in-g":
@@ -279,7 +293,7 @@ def compare(acc, script, n_out, n_in, hb, origin):
         ca, cb = cut(ca), cut(cb)
     if ca != cb:
         bad("callbacks", f"initiator callbacks differ: helper {ca} vs real {cb}")
-    both = any(s in ("app-in", "app-in-g", "testreq-in", "hb-in") for s in script) and any(s in ("app-out", "testreq-out", "hb-out") for s in script)
+    both = any(s in ("app-in", "app-in-g", "app-in-big", "testreq-in", "hb-in") for s in script) and any(s in ("app-out", "app-out-big", "testreq-out", "hb-out") for s in script)
     acc.case(("fidelity", tuple(script), n_out, n_in, hb) if both else None, cls=["fidelity", f"fidelity/origin={origin}", "fidelity/asymmetric-counters" if n_out != n_in else "fidelity/symmetric"],
              sample={"fidelity_script": list(script), "start_out_in": [n_out, n_in], "frames_each_way": [len(B["sent"]), len(B["recv"])]} if both and len(acc.samples) < 8 and len(script) > 4 else None)
 
@@ -292,7 +306,7 @@ def fidelity_shard(acc, n, seed, maxlen):
 
 def fidelity_fixed(acc):
     for counters in ((1, 1), (5, 3), (3, 5)):
-        for script in (["logon"], ["logon", "app-out", "app-in", "testreq-out", "testreq-in", "hb-out", "hb-in"], ["logon", "app-in", "app-in", "app-out", "logout-out"], ["logon", "app-in-g", "app-out", "app-in-g"],
+        for script in (["logon"], ["logon", "app-out", "app-in", "testreq-out", "testreq-in", "hb-out", "hb-in"], ["logon", "app-in", "app-in", "app-out", "logout-out"], ["logon", "app-in-g", "app-out", "app-in-g"], ["logon", "app-out-big", "app-in", "app-in-big", "testreq-out"],
                        ["logon", "testreq-in", "app-out", "logout-in"], ["logon", "logout-out"], ["logon", "logout-in"]):
             compare(acc, script, counters[0], counters[1], 30, "fixed")
 
